@@ -574,6 +574,28 @@ def c19d(F, R):
                         probs.append((f"field{j}|swapped", f"{v}: constructor field {j} is rebuilt from written field {got[1]}", loc(a)))
                 if len(ctor["args"]) != len(field_tys):
                     raise Unx("constructor arity")
+            # fields written through an accessor (`csr.value()`) and rebuilt through a constructor (`CsrImm::new(n)`): the two must be
+            # inverse to each other, i.e. a plain projection of the stored value and a plain wrap of it
+            for t in toks:
+                if t[0] == "num" and t[4]:
+                    acc = F.fns.get(t[4])
+                    if acc and "hir" in acc:
+                        ab = peel(acc["hir"]["value"])
+                        while ab.get("k") == "Block" and not ab.get("stmts") and ab.get("expr") is not None:
+                            ab = peel(ab["expr"])
+                        plain = ab.get("k") == "Field" and ekey(ab["e"]).lstrip("&*") == "self"
+                        if not plain:
+                            probs.append((f"field{t[1]}|accessor", f"field {t[1]} is written through `{short(t[4])}()`, which is not a plain read of the stored value (`{ekey(ab)[:40]}`): two different values can be written as the same text, and the text does not load back to the value", acc["sp"]))
+                        own = t[4].rsplit("::", 1)[0]
+                        ctor = F.fns.get(own + "::new")
+                        if ctor and "hir" in ctor:
+                            cb = peel(ctor["hir"]["value"])
+                            while cb.get("k") == "Block" and not cb.get("stmts") and cb.get("expr") is not None:
+                                cb = peel(cb["expr"])
+                            pn = [x.get("name") for x in ctor["hir"]["params"]]
+                            wraps = cb.get("k") == "Call" and len(cb["args"]) == 1 and peel(cb["args"][0]).get("k") == "Path" and peel(cb["args"][0]).get("res") in pn
+                            if not wraps:
+                                probs.append((f"field{t[1]}|constructor", f"`{short(own)}::new` does not simply wrap its argument (`{ekey(cb)[:40]}`): the reader rebuilds field {t[1]} through it", ctor["sp"]))
             if probs:
                 for k, msg, where in probs:
                     R.bad(f"{v}|{k}", f"{v}: {msg}", where)
